@@ -48,6 +48,8 @@ impl<'a, T> MutexGuard<'a, VecDeque<T>> {
     #[verifier::external_body]
     pub fn push_back(&mut self, t: T) ensures final(self)@ == old(self)@.push(t) { unimplemented!() }
     #[verifier::external_body]
+    pub fn push_front(&mut self, t: T) ensures final(self)@ == seq![t] + old(self)@ { unimplemented!() }
+    #[verifier::external_body]
     pub fn back(&self) -> (r: Option<&T>)
         ensures self@.len() == 0 ==> r.is_none(), self@.len() > 0 ==> r.is_some() && *r.unwrap() == self@.last(),
     { unimplemented!() }
